@@ -35,15 +35,17 @@ def bcfg(callers=3, bs=2, tries=2, cuts=0, capture=False, invs="NoCrash OneOutco
                         capture="TRUE" if capture else "FALSE", invs=invs, oos=oos)
 
 
-def run_pool(run, exe, mode, grid, callers, length, seed):
+def run_pool(run, exe, mode, grid, callers, length, seed, sizes="small", tag=""):
+    """Every second grid point has the fake backend deliver its reply stream in pieces (-dribble)."""
     procs = []
     for i, (bs, delay) in enumerate(grid):
+        dribble = (seed * 100 + i + 1) if i % 2 == 1 or sizes == "big" else 0
         out = run.path("pool-%s-%d.ndjson" % (mode, run._next()))
         sock = run.path("ps%d" % run._next())
         os.makedirs(sock)
         p = subprocess.Popen([exe, "pool", "-dir", sock, "-out", out, "-mode", mode, "-n", str(bs * 100000 + delay), "-workers", str(callers[i % len(callers)]),
-                              "-len", str(length), "-seed", str(seed * 100 + i)], stdout=subprocess.PIPE, stderr=subprocess.PIPE, text=True)
-        procs.append((p, out, "bs%d/d%dus/callers%d" % (bs, delay, callers[i % len(callers)])))
+                              "-len", str(length), "-seed", str(seed * 100 + i), "-sizes", sizes, "-dribble", str(dribble)], stdout=subprocess.PIPE, stderr=subprocess.PIPE, text=True)
+        procs.append((p, out, "%sbs%d/d%dus/callers%d%s" % (tag, bs, delay, callers[i % len(callers)], "/dribble" if dribble else "")))
     outs = []
     for p, out, name in procs:
         so, se = p.communicate(timeout=3000)
@@ -109,17 +111,19 @@ def check_c06(prop, tier, seed):
         out = run.path("hs-%s.ndjson" % mode)
         sock = run.path("hsock%d" % run._next())
         os.makedirs(sock)
-        p = subprocess.Popen([exe, "handler-seq", "-dir", sock, "-out", out, "-mode", mode, "-n", str(n), "-len", str(ln), "-seed", str(seed * 10 + i)],
-                             stdout=subprocess.PIPE, stderr=subprocess.PIPE, text=True)
+        p = subprocess.Popen([exe, "handler-seq", "-dir", sock, "-out", out, "-mode", mode, "-n", str(n), "-len", str(ln), "-seed", str(seed * 10 + i),
+                              "-sizes", "big", "-dribble", str(seed * 10 + i + 1)], stdout=subprocess.PIPE, stderr=subprocess.PIPE, text=True)
         jobs.append((p, out, mode))
     # (2) concurrent callers over the option grid
     grid = [(1, 50), (2, 250), (10, 250), (10, 5000)] if quick else [(b, d) for b in (1, 2, 3, 10) for d in (50, 250, 5000)]
     callers = [3, 8, 16, 33] if quick else [1, 2, 5, 8, 16, 33, 64]
     outs = run_pool(run, exe, "calm", grid, callers, 40 if quick else 150, seed)
+    # large values (beyond / straddling one read of the pool's reader), reply stream in pieces
+    outs += run_pool(run, exe, "calm", [(2, 250), (10, 250)] if quick else [(1, 50), (2, 250), (10, 250), (10, 5000)], [10, 4] if quick else [10, 4, 16, 2],
+                     25 if quick else 80, seed + 7, sizes="big", tag="big/")
     for p, out, mode in jobs:
         so, se = p.communicate(timeout=3000)
-        if p.returncode != 0:
-            run.driver_failed("handler-seq %s failed" % (mode), se)
+        run.handler_seq_done(p, so, se, out, mode)
         pl.pending.append(out)
     info = digest(run, pl, outs, prop)
     pl.validate()
